@@ -37,6 +37,7 @@
 
 #include "../common/infra/Assertions.h"
 
+#include <algorithm>
 #include <cstdint>
 
 using namespace psy;
@@ -242,27 +243,40 @@ BasicTypeKind TypeChecker::performArithmeticConversions(
         BasicTypeKind leftTyK,
         BasicTypeKind rightTyK)
 {
-    switch (leftTyK) {
-        case BasicTypeKind::Float:
-        case BasicTypeKind::Double:
-        case BasicTypeKind::LongDouble:
-        case BasicTypeKind::FloatComplex:
-        case BasicTypeKind::DoubleComplex:
-        case BasicTypeKind::LongDoubleComplex:
-            return leftTyK;
-        default:
-            switch (rightTyK) {
-                case BasicTypeKind::Float:
-                case BasicTypeKind::Double:
-                case BasicTypeKind::LongDouble:
-                case BasicTypeKind::FloatComplex:
-                case BasicTypeKind::DoubleComplex:
-                case BasicTypeKind::LongDoubleComplex:
-                    return rightTyK;
-                default:
-                    break;
-            }
-            break;
+    // If either operand has a floating type, the common real type is the
+    // wider corresponding real type, and the result is complex if either
+    // operand is (6.3.1.8-1).
+    auto floatingRank = [] (BasicTypeKind basicTyK) {
+        switch (basicTyK) {
+            case BasicTypeKind::Float:
+            case BasicTypeKind::FloatComplex:
+                return 1;
+            case BasicTypeKind::Double:
+            case BasicTypeKind::DoubleComplex:
+                return 2;
+            case BasicTypeKind::LongDouble:
+            case BasicTypeKind::LongDoubleComplex:
+                return 3;
+            default:
+                return 0;
+        }
+    };
+    auto isComplex = [] (BasicTypeKind basicTyK) {
+        return basicTyK == BasicTypeKind::FloatComplex
+                || basicTyK == BasicTypeKind::DoubleComplex
+                || basicTyK == BasicTypeKind::LongDoubleComplex;
+    };
+    auto rank = std::max(floatingRank(leftTyK), floatingRank(rightTyK));
+    if (rank) {
+        bool complex = isComplex(leftTyK) || isComplex(rightTyK);
+        switch (rank) {
+            case 1:
+                return complex ? BasicTypeKind::FloatComplex : BasicTypeKind::Float;
+            case 2:
+                return complex ? BasicTypeKind::DoubleComplex : BasicTypeKind::Double;
+            default:
+                return complex ? BasicTypeKind::LongDoubleComplex : BasicTypeKind::LongDouble;
+        }
     }
 
     leftTyK = performIntegerPromotion(leftTyK);
